@@ -78,7 +78,24 @@ def fh_py(f):
         return None
     if f[0] == "scalar":
         return pv_py(f[1])
-    return [pv_py(v) for v in f[1]]
+    vals = [pv_py(v) for v in f[1]]
+    # optional third field: the container the (all-int) steps are handed over in; the decision
+    # rule (model: FhList) is the same for every container
+    cont = f[2] if len(f) > 2 else "list"
+    if cont == "array":
+        import numpy as np
+        return np.array(vals, dtype="int64")
+    if cont == "index":
+        import pandas as pd
+        return pd.Index(vals, dtype="int64")
+    return vals
+
+
+def _fh_container(rng, f):
+    """Hand an all-int list horizon over as list / int64 array / int64 pd.Index."""
+    if f[0] == "list" and all(v[0] == "int" for v in f[1]) and rng.random() < 0.45:
+        return f + [rng.choice(["array", "index", "index"])]
+    return f
 
 
 def fh_coq(f):
@@ -100,6 +117,10 @@ def rand_setting(rng, lo=1, hi=5):
 
 
 def rand_fh(rng, hi=5, allow_missing=True):
+    return _fh_container(rng, _rand_fh_list(rng, hi, allow_missing))
+
+
+def _rand_fh_list(rng, hi=5, allow_missing=True):
     r = rng.random()
     if r < 0.45:
         k = rng.randint(1, 3)
@@ -838,7 +859,7 @@ def shrink(case):
     if isinstance(f, list) and f and f[0] == "list" and len(f[1]) > 1:
         for i in range(len(f[1])):
             d = dict(c)
-            d["fh" if c["kind"] != "fh" else "f"] = ["list", f[1][:i] + f[1][i + 1:]]
+            d["fh" if c["kind"] != "fh" else "f"] = ["list", f[1][:i] + f[1][i + 1:]] + f[2:]
             yield d
     if c.get("names") and len(c["names"]) > 1:
         for i in range(len(c["names"])):
